@@ -78,7 +78,16 @@ def call_disasm(a):
     except Exception as ex:  # noqa
         out["e"] = "malformed-result:" + type(ex).__name__
         return out
-    re_ = run_call(bits.script.script, list(res["ok"]))
+    # a caller may modify the list it got back (e.g. drop everything up to OP_CODESEPARATOR): a later disassembly of the
+    # same bytes must not be affected by that
+    first = list(res["ok"])
+    if isinstance(res["ok"], list):
+        res["ok"].clear()
+        res["ok"].append("OP_RESERVED")
+        again = run_call(bits.script.decode_script, bytes(a))
+        if again.get("ok") != first:
+            return {"ok": False, "items": [], "re_ok": False, "re": [], "e": "result-aliased-between-calls"}
+    re_ = run_call(bits.script.script, first)
     if "ok" in re_ and isinstance(re_["ok"], (bytes, bytearray)):
         out["re_ok"], out["re"] = True, J(re_["ok"])
     else:
@@ -105,7 +114,14 @@ def call_disasmw(a):
         stack, rest = res["ok"]
         if not isinstance(stack, list) or not isinstance(rest, (bytes, bytearray)):
             raise TypeError("not (list, bytes)")
-        return {"ok": True, "stack": [J(bytes.fromhex(x)) for x in stack], "rest": J(bytes(rest))}
+        ret = {"ok": True, "stack": [J(bytes.fromhex(x)) for x in stack], "rest": J(bytes(rest))}
+        first = list(stack)
+        stack.clear()                      # the caller modifies its result; the next disassembly must not see that
+        stack.append("00")
+        again = run_call(bits.script.decode_script, bytes(a), witness=True)
+        if "ok" not in again or list(again["ok"][0]) != first:
+            return {"ok": False, "stack": [], "rest": [], "e": "result-aliased-between-calls"}
+        return ret
     except Exception as ex:  # noqa - e.g. a bare list instead of (stack, rest)
         return {"ok": False, "stack": [], "rest": [], "e": "malformed-result:" + type(ex).__name__}
 
